@@ -220,6 +220,35 @@ func (v *Verifier) addOb(name, kind, clause string, st *State, goal *Term, cover
 	}
 	cands := append(append([]*Term(nil), st.idx...), sks...)
 	if !cover {
+		// a loop counter pinned from both sides ( x < L  and  not x+1 < L ) is replaced by its value L-1,
+		// so that what the invariant says up to x+1 reads as what the goal says up to L
+		for round := 0; round < 3; round++ {
+			var x, L *Term
+			have := map[*Term]bool{}
+			for _, h := range st.pc {
+				have[h] = true
+			}
+			for _, h := range st.pc {
+				if h.Op == "not" && h.Args[0].Op == "<" {
+					if y, ok := minusOne(h.Args[0].Args[0]); ok && y.Op == "var" && !mentions(h.Args[0].Args[1], y) && have[Lt(y, h.Args[0].Args[1])] {
+						x, L = y, h.Args[0].Args[1]
+						break
+					}
+				}
+			}
+			if x == nil {
+				break
+			}
+			m := map[*Term]*Term{x: Sub(L, IntLit(1))}
+			st = st.clone()
+			for i, t := range st.pc {
+				st.pc[i] = Subst(t, m)
+			}
+			goal = Subst(goal, m)
+			for i, c := range cands {
+				cands[i] = Subst(c, m)
+			}
+		}
 		goal = underFacts(st.pc, goal)
 		if goal.IsTrue() {
 			ob.NTriv++
